@@ -115,14 +115,14 @@ def r4(c):
     b = P.fn(RUN_ONE)
     fl = one(b.calls(FAIL), 'fail in run_one_request')
     c.ob('run_one_request/once', not b.in_cycle(fl.node), 'one failure site, not in a loop', '', fl.loc())
-    res = [(e, v) for e, v, info in b.variant_edges('core::result::Result') if 'result' in q.chain_names(b, info['place'])]
+    res = [(e, v) for e, v, info in b.variant_edges('core::result::Result') if q.is_result_of(b, info['place'], EXEC)]
     err_e = [e for e, v in res if v == 'Err']
     ok_e = [e for e, v in res if v == 'Ok']
     c.ob('run_one_request/on-error', q.dominated_by_any(b, err_e, fl.node) and not any(b.reaches(e, fl.node) for e in ok_e), 'it is on the Err edge of the transaction result only', '', fl.loc())
     c.ob('run_one_request/always-failed', bool(err_e) and all(b.postdominates(fl.node, e) for e in err_e),
          'every path from the Err edge to a return passes through details.fail (the request never relies on the Drop backstop while the task is alive)', '', fl.loc())
     er = q.sem(b, fl.args[1])
-    c.ob('run_one_request/error-passed', 'err' in q.chain_names(b, fl.args[1]), 'the request is failed with the transaction\'s own error', repr(er), fl.loc())
+    c.ob('run_one_request/error-passed', q.is_error_of(b, fl.args[1], EXEC), 'the request is failed with the transaction\'s own error', repr(er), fl.loc())
     c.ob('run_one_request/same-request', q.is_name(b, fl.args[0], 'request'), 'the request failed is the one that was executed', '', fl.loc())
     # success is reported only by handle_response (C04/R04.3); run_one_request does not complete on Ok
     okc = [cs for cs in b.calls() if q.dominated_by_any(b, ok_e, cs.node) and 'completion' in effects.get(P).of_call(cs)]
